@@ -358,6 +358,25 @@ theorem C02_unroll_closure_is_transpose_total [AddLaws S] [MulLaws S] [CommLaws 
       dot U xs = dot img B :=
   unroll_roll_slice_adjoint_total D R C sr sc fr fc img xs hfr hfc hfr1 hfc1 hD himg hxs
 
+/-- **convolution, first stage, whole batch: the stored closure's operation is the transpose of `unroll_blocks`.**
+    For every image batch `a : B ++ [D, R, C]` (any batch dimensions), every window that fits, all strides and
+    every delta `x` of the unrolled shape: both `unrollBlocks` and the closure's `rollBlocks … true` return, the
+    result has the operand's dimensions, and `⟨unroll_blocks(a), x⟩ = ⟨a, roll_blocks(x)⟩` over a commutative
+    ring — overlapping windows accumulate, windows a stride skips receive nothing. -/
+theorem C02_unroll_blocks_closure_is_transpose [AddLaws S] [MulLaws S] [CommLaws S] (a x : Tensor S) (B : List Nat)
+    (D R C sr sc fr fc : Nat) (hda : a.dims = B ++ [D, R, C]) (hwa : a.WF)
+    (hfr : fr ≤ R) (hfc : fc ≤ C) (hfr1 : 1 ≤ fr) (hfc1 : 1 ≤ fc) (hsr : 1 ≤ sr) (hsc : 1 ≤ sc)
+    (hx : Shaped (B ++ [((R - fr) / sr + 1) * ((C - fc) / sc + 1), D * (fr * fc)]) x) :
+    ∃ U back : Tensor S, unrollBlocks a sr sc fr fc = .ok U ∧ rollBlocks x D R C sr sc fr fc true = .ok back ∧
+      back.dims = a.dims ∧ dot U.vals x.vals = dot a.vals back.vals :=
+  unrollBlocks_closure_adjoint a x B D R C sr sc fr fc hda hwa hfr hfc hfr1 hfc1 hsr hsc hx
+
+/-- non-vacuity: a batch of two 1×2×3 images, a 1×2 window, strides 1 -/
+example : (⟨[2, 1, 2, 3], [1, 2, 3, 4, 5, 6, 7, 8, 9, 10, 11, 12]⟩ : Tensor ℝ).WF ∧
+    Shaped ([2] ++ [((2 - 1) / 1 + 1) * ((3 - 2) / 1 + 1), 1 * (1 * 2)])
+      (⟨[2, 4, 2], [1, 0, 0, 1, 1, 0, 0, 1, 1, 0, 0, 1, 1, 0, 0, 1]⟩ : Tensor ℝ) := by
+  refine ⟨⟨?_, ?_⟩, ?_, ?_⟩ <;> simp [prod]
+
 end Corgi
 
 #print axioms Corgi.exHeap_shapeOK
@@ -371,3 +390,4 @@ end Corgi
 #print axioms Corgi.C02_unroll_roll_same_index
 #print axioms Corgi.C02_expand_closure_is_transpose
 #print axioms Corgi.C02_unroll_closure_is_transpose_total
+#print axioms Corgi.C02_unroll_blocks_closure_is_transpose
